@@ -441,6 +441,83 @@ def sl7(F, R):
         R.ok("SL7", b.where(), "%s(): %d own Err results examined" % (name, n))
 
 
+def _leaf_idiom(F, sl, site, pay):
+    """accepted second result of slice(): under the tested fact `edges of V(v) is empty` the graph `empty(capacity of self.vertices)`
+    on which slice() performs nothing but add(v).  (slice() takes &self, so every mutator it calls is applied to the new graph.)"""
+    v_edges = ("field", ("elem", ("field", ("param", 1), "Sodg::vertices"), ("param", 2)), "Vertex::edges")
+    guard = False
+    for f in sl.facts_at(site):
+        if f[0] == "bool" and f[2] is True and f[1][0] == "call" and f[1][1].split("::")[-1] == "is_empty" and \
+                len(f[1][2]) == 1 and strip_sites(strip_load(f[1][2][0])) == v_edges:
+            guard = True
+    if not guard or len(pay) != 1:
+        return False
+    g = strip_load(pay[0])
+    if not (g[0] == "call" and g[1].split("::")[-1] == "empty" and len(g[2]) == 1):
+        return False
+    cap = strip_load(g[2][0])
+    if not (cap[0] == "call" and cap[1].split("::")[-1] == "capacity" and strip_sites(strip_load(cap[2][0])) == ("field", ("param", 1), "Sodg::vertices")):
+        return False
+    for csite, t in sl.calls():
+        c = t["callee"]
+        if not c.get("local"):
+            continue
+        cb = F.bodies.get(c.get("path"))
+        if cb is None or not cb.locals[1]["ty"].startswith("&mut"):
+            continue
+        args = [strip_load(deref_addr(sl, a)) for a in sl.call_args(t, csite)]
+        if not (c.get("name") == "add" and len(args) == 2 and args[1] == ("param", 2)):
+            return False
+    return True
+
+
+def sl8(F, R):
+    """slice(v) returns exactly what slice_some(v, always-true) returns: every Ok(..) built in slice() carries the graph produced by
+    the slice_some call (a second way of producing the result — a fast path for a vertex "known" to be standalone — is a second
+    definition of reachability, and is wrong whenever its premise is: a vertex outside every group can still have edges)"""
+    sl = F.fn("Sodg", "slice")
+    ss = F.fn("Sodg", "slice_some")
+    if sl is None or ss is None:
+        R.missing("SL8", "Sodg::slice / Sodg::slice_some")
+        return
+    R.analysed(sl)
+    n = 0
+    for site, kind, st in sl.sites():
+        if not (kind == "stmt" and st["k"] == "assign" and st["rv"]["k"] == "aggregate" and st["rv"].get("variant") == "Ok"):
+            continue
+        e = sl.expr_rvalue(st["rv"], site)
+        pay = [fe for _, fe in e[3]]
+        n += 1
+        from_ss = bool(pay) and all(mentions(x, lambda z: z[0] == "call" and z[1] == ss.path) for x in pay)
+        other = any(mentions(x, lambda z: z[0] == "call" and z[1] != ss.path and z[1].split("::")[-1] in ("empty", "clone", "default"))
+                    for x in pay)
+        if from_ss and not other:
+            R.ok("SL8", sl.where(site), "the Ok(..) of slice() carries the graph produced by slice_some()")
+        elif _leaf_idiom(F, sl, site, pay):
+            R.ok("SL8", sl.where(site), "fast path for a start vertex tested to have no edges: empty(capacity of the source) + add(v) is "
+                 "what slice_some() builds for it (the closure visits v alone, the rebuild adds v and finds no edge)")
+        else:
+            R.bad("SL8", "SL8/Sodg::slice/result-not-from-slice_some", sl.where(site),
+                  "slice() returns a graph that was not produced by slice_some(v, always-true): a second definition of the reachable "
+                  "sub-graph (fast path), wrong whenever its premise about the start vertex is",
+                  {"payload": [show(x, sl)[:200] for x in pay], "guards": [show(f, sl)[:120] for f in sl.facts_at(site) if "Level" not in repr(f)][:6]})
+    # ... or slice() hands on the Result of slice_some() as it is
+    def _alts(x, acc, depth=0):
+        x = strip_load(x)
+        if x[0] == "phi" and depth < 6:
+            for y in x[1]:
+                _alts(y, acc, depth + 1)
+        else:
+            acc.append(x)
+        return acc
+    for r in sl.returns:
+        for x in _alts(sl.expr_local(0, (r, sl.term_idx(r))), []):
+            if x[0] != "agg" and mentions(x, lambda z: z[0] == "call" and z[1] == ss.path):
+                n += 1
+                R.ok("SL8", sl.where((r, sl.term_idx(r))), "slice() returns the Result of slice_some() as it is")
+    R.floor("SL8", "results of slice() traced to their origin", n, 1)
+
+
 def base_root_is(e, root):
     ch = base_chain(e)
     return bool(ch) and strip_load(ch[-1]) == root
